@@ -44,15 +44,15 @@ func (i *Inv) FailedInv() bool { return i.Ended && !i.Succeeded() }
 
 // WriteRec is one applied storage write.
 type WriteRec struct {
-	Seq  int
+	Seq int
 	// AckSeq: event at which the engine got the answer of this write: Seq itself when
 	// writes take no simulated time, 1<<60 when the answer was never delivered.
 	AckSeq int
-	T    int64
-	Gen  int
-	Path string
-	Op   string
-	St   ObjState
+	T      int64
+	Gen    int
+	Path   string
+	Op     string
+	St     ObjState
 }
 
 // APIRec is one API call with its return.
